@@ -127,7 +127,9 @@ pub fn check_ontology_pairs(ont: &Ontology, r: &RefOnt, algs: &[Alg], counters: 
                     counters.0 += 1;
                     let s = scores(alg, ick(kind), &ta, &tb);
                     let site = format!("{alg:?}({})", kind.name());
-                    if s[0].to_bits() != s[1].to_bits() || s[1].to_bits() != s[2].to_bits() {
+                    // the three entry points run the same algorithm: equal up to rounding (NaN-ness must agree too)
+                    let agree = |x: f32, y: f32| (x.is_nan() && y.is_nan()) || x == y || (x - y).abs() <= 1e-6 * x.abs().max(y.abs()).max(1.0);
+                    if !agree(s[0], s[1]) || !agree(s[1], s[2]) {
                         return Some((site, "similarity_score, Builtins and the concrete struct disagree".into(), format!("({a},{b}): {s:?}")));
                     }
                     let v = s[0];
@@ -357,6 +359,134 @@ pub fn run(ctx: &mut Ctx) {
             let f = Facts { anns: AnnGroups::new(0b00110, &ids).interleaved(), ..base };
             let r = RefOnt::derive(&f);
             ctx.transitions(f.n_steps() + 75);
+            let Ok(ont) = drive::build(&f, Mode::Minimal) else {
+                ctx.exec();
+                continue;
+            };
+            let mut counters = (0u64, 0u64);
+            match guard(|| check_ontology(&ont, &r, &[Alg::Distance, Alg::GraphIc, Alg::Resnik], &mut counters)) {
+                Ok(None) => {}
+                Ok(Some((site, sig, det))) => ctx.violation(&site, &sig, json!({"facts": f.to_json(), "dag": d.describe(), "difference": det, "rust": f.to_rust(false)})),
+                Err(p) => ctx.violation("Similarity::calculate", "panics", json!({"facts": f.to_json(), "observed": p})),
+            }
+            ctx.execs(counters.0);
+            ctx.validateds(counters.0);
+            ctx.nontrivials(counters.1);
+            ctx.sample(|| json!({"dag": d.describe(), "ids": ids}));
+        }
+    }
+    // ---- the name dispatch: every documented name and alias, in three spellings, for the three kinds, gives
+    // the variant of that name (scores equal to the literal variant on a 4-term ontology); other names are refused
+    {
+        ctx.space("names/Builtins::new", "13 documented names and aliases x {lower, UPPER, Mixed} x 3 kinds: Builtins::new(name, kind) scores like the literal variant on all 16 pairs of a 4-term ontology; 9 non-names are refused");
+        if ctx.take() {
+            ctx.state();
+            ctx.nontrivial();
+            let names: [(&str, Alg); 13] = [("graphic", Alg::GraphIc), ("resnik", Alg::Resnik), ("distance", Alg::Distance), ("dist", Alg::Distance), ("informationcoefficient", Alg::InformationCoefficient), ("ic", Alg::InformationCoefficient), ("jc", Alg::Jc), ("jc2", Alg::Jc), ("lin", Alg::Lin), ("relevance", Alg::Relevance), ("rel", Alg::Relevance), ("mutation", Alg::Mutation), ("mut", Alg::Mutation)];
+            let dag = &all_dags(4)[400];
+            let base = Facts::from_dag(dag, &POOL);
+            let ids: Vec<u32> = base.terms.iter().map(|t| t.id).collect();
+            let f = Facts { anns: AnnGroups::new(0b0110, &ids).interleaved(), ..base };
+            match drive::build(&f, Mode::Minimal) {
+                Err(e) => ctx.violation("Builder", "[builder] construction fails on valid facts", json!({"case": f.to_json(), "observed": e})),
+                Ok(ont) => {
+                    let res = guard(|| -> V {
+                        for (name, alg) in names {
+                            let mixed: String = name.chars().enumerate().map(|(i, c)| if i % 2 == 0 { c.to_ascii_uppercase() } else { c }).collect();
+                            for spelled in [name.to_string(), name.to_uppercase(), mixed] {
+                                for kind in KINDS {
+                                    let k = ick(kind);
+                                    let Ok(b) = Builtins::new(&spelled, k) else {
+                                        return Some(("Builtins::new".into(), "refuses a documented name".into(), format!("{spelled:?}")));
+                                    };
+                                    for &x in &ids {
+                                        for &y in &ids {
+                                            let (tx, ty) = (ont.hpo(x).unwrap(), ont.hpo(y).unwrap());
+                                            let got = b.calculate(&tx, &ty);
+                                            let want = scores(alg, k, &tx, &ty)[2];
+                                            if !(got == want || (got.is_nan() && want.is_nan()) || (got - want).abs() <= 1e-6 * want.abs().max(1.0)) {
+                                                return Some(("Builtins::new".into(), "the name selects another algorithm or kind".into(), format!("Builtins::new({spelled:?}, {}) on ({x},{y}) = {got}, {alg:?} gives {want}", kind.name())));
+                                            }
+                                        }
+                                    }
+                                }
+                            }
+                        }
+                        for bad in ["", " ", "graph", "graphic ", "resnick", "jc3", "ic2", "distance1", "does-not-exist"] {
+                            if Builtins::new(bad, InformationContentKind::Omim).is_ok() {
+                                return Some(("Builtins::new".into(), "accepts a name that is not documented".into(), format!("{bad:?}")));
+                            }
+                        }
+                        None
+                    });
+                    ctx.execs(13 * 3 * 3 * 16);
+                    ctx.validateds(13 * 3 * 3 * 16);
+                    match res {
+                        Ok(None) => {}
+                        Ok(Some((site, sig, det))) => ctx.violation(&site, &sig, json!({"facts": f.to_json(), "difference": det})),
+                        Err(p) => ctx.violation("Builtins::new", "panics", json!({"observed": p})),
+                    }
+                }
+            }
+            ctx.sample(|| json!({"names": names.iter().map(|n| n.0).collect::<Vec<_>>()}));
+        }
+    }
+    // ---- properly overlapping record sets and as many information-content levels as terms: record i on node i,
+    // record n+i on nodes i and i+1 (per kind, with different offsets), one bare record
+    for n in 2..=4usize {
+        let dags = all_dags(n);
+        ctx.space(&format!("builder/D{n}/overlapping-records-x-pairs"), &format!("{} labelled DAGs x (record i on term i, record n+i on terms i and i+1 mod n; OMIM shifted by one, ORPHA by two) x {} ordered pairs x 8 algorithms x 3 kinds", dags.len(), n * n));
+        for d in &dags {
+            if !ctx.take() {
+                continue;
+            }
+            ctx.state();
+            let base = Facts::from_dag(d, &POOL);
+            let ids: Vec<u32> = base.terms.iter().map(|t| t.id).collect();
+            let mut anns = vec![];
+            for (ki, kind) in KINDS.iter().enumerate() {
+                for i in 0..n {
+                    anns.push(Facts::ann(*kind, 100 + i as u32, &format!("S{i}"), Some(ids[(i + ki) % n])));
+                    anns.push(Facts::ann(*kind, 200 + i as u32, &format!("P{i}"), Some(ids[(i + ki) % n])));
+                    anns.push(Facts::ann(*kind, 200 + i as u32, &format!("P{i}"), Some(ids[(i + ki + 1) % n])));
+                }
+                anns.push(Facts::ann(*kind, 999, "bare", None));
+            }
+            let f = Facts { anns, ..base };
+            let r = RefOnt::derive(&f);
+            ctx.transitions(f.n_steps() + (n * n * 24) as u64);
+            let Ok(ont) = drive::build(&f, Mode::Minimal) else {
+                ctx.exec();
+                ctx.violation("Builder", "[builder] construction fails on valid facts", json!({"case": f.to_json()}));
+                continue;
+            };
+            let mut counters = (0u64, 0u64);
+            match guard(|| check_ontology(&ont, &r, &ALGS, &mut counters)) {
+                Ok(None) => {}
+                Ok(Some((site, sig, det))) => ctx.violation(&site, &format!("[overlapping records] {sig}"), json!({"facts": f.to_json(), "dag": d.describe(), "difference": det})),
+                Err(p) => ctx.violation("Similarity::calculate", "[overlapping records] panics", json!({"facts": f.to_json(), "observed": p})),
+            }
+            ctx.execs(counters.0);
+            ctx.validateds(counters.0);
+            ctx.nontrivials(counters.1);
+            ctx.sample(|| json!({"dag": d.describe(), "ids": ids}));
+        }
+    }
+    // ---- six terms (Distance, GraphIc, Resnik): all 32 768 DAGs whose links respect the node order
+    if !thorough {
+        let dags = crate::space::topo_dags(6);
+        ctx.space("builder/T6/distance+graphic", &format!("{} DAGs on 6 terms whose links respect the node order (ids ascending | descending with depth) x 36 ordered pairs x Distance, GraphIc, Resnik", dags.len()));
+        for (di, d) in dags.iter().enumerate() {
+            if !ctx.take() {
+                continue;
+            }
+            ctx.state();
+            let pool: [u32; 6] = if di % 2 == 0 { [1, 7, 118, 4000, 77_777, 9_999_999] } else { [9_999_999, 77_777, 4000, 118, 7, 1] };
+            let base = Facts::from_dag(d, &pool);
+            let ids: Vec<u32> = base.terms.iter().map(|t| t.id).collect();
+            let f = Facts { anns: AnnGroups::new(0b001100, &ids).interleaved(), ..base };
+            let r = RefOnt::derive(&f);
+            ctx.transitions(f.n_steps() + 108);
             let Ok(ont) = drive::build(&f, Mode::Minimal) else {
                 ctx.exec();
                 continue;
